@@ -327,6 +327,7 @@ class Eff:
     loops: Tuple[int, ...] = ()  # line numbers of the loops the effect is inside
     raw: Optional[ast.AST] = None
     opaque: bool = False  # bind: the local is kept by name (its value is not substituted at its uses)
+    opq: frozenset = frozenset()  # locals that stand for themselves in this effect's text (opaque at that point)
 
     @property
     def text(self) -> str:
@@ -593,7 +594,8 @@ class Summariser:
                         e_ = ep.get(nm, 0)
                         truth[f"{k0}@{e_}" if e_ > 0 else k0] = isnone
             elif node.kind == "return":
-                effects = effects + [Eff("return", None, self.sub(node.ast.value, env), node.line, lstack, node.ast)]
+                effects = effects + [Eff("return", None, self.sub(node.ast.value, env), node.line, lstack, node.ast, False,
+                                         frozenset(nm for nm, v in env.items() if isinstance(v, ast.Name) and v.id == nm))]
             elif node.kind == "raise_stmt":
                 effects = effects + [Eff("raise", None, self.sub(node.ast.exc, env), node.line, lstack, node.ast)]
                 if self.stop_at_raise:
@@ -822,7 +824,10 @@ class Summariser:
 
     def _transfer(self, st: ast.AST, env: Dict[str, ast.AST], effects: List[Eff], lstack) -> Tuple[Dict[str, ast.AST], List[Eff]]:
         n0 = len(effects)
+        opq = frozenset(nm for nm, v in env.items() if isinstance(v, ast.Name) and v.id == nm)
         env, effects = self._transfer0(st, env, effects, lstack)
+        for e in effects[n0:]:
+            e.opq = opq
         for e in effects[n0:]:
             if e.kind in ("store", "aug", "delete", "yield", "yieldfrom") or (e.kind in ("expr", "bind") and e.value is not None and not substitutable(e.value, self.pure_calls)):
                 self._barrier(env)
